@@ -74,6 +74,33 @@ func provablyNonNilErr(v ssa.Value, b *ssa.BasicBlock, depth int) bool {
 	if isNilConst(v) {
 		return false
 	}
+	if nn, _ := factNil(allFacts(b), v); nn {
+		return true // a dominating test established v != nil (also for a phi of nil and an error)
+	}
+	// `if x.err != nil { return x.err }`: a second load of the location just tested, with
+	// nothing but loads between the branch and this use
+	if ld, ok := v.(*ssa.UnOp); ok && ld.Op == token.MUL && ld.Block() == b {
+		quiet := true
+		for _, in := range b.Instrs {
+			if in == ssa.Instruction(ld) {
+				break
+			}
+			switch in.(type) {
+			case *ssa.UnOp, *ssa.FieldAddr, *ssa.IndexAddr, *ssa.DebugRef, *ssa.Phi:
+			default:
+				quiet = false
+			}
+		}
+		if quiet && len(b.Preds) == 1 {
+			if ifi, ok := b.Preds[0].Instrs[len(b.Preds[0].Instrs)-1].(*ssa.If); ok {
+				if x, neq, ok := nilCompare(ifi.Cond); ok && sameExpr(x, v) {
+					if (b.Preds[0].Succs[0] == b) == neq {
+						return true
+					}
+				}
+			}
+		}
+	}
 	switch x := v.(type) {
 	case *ssa.Call:
 		switch calleeKey(&x.Call) {
